@@ -40,6 +40,40 @@ CHECKS = {
             "streaming_body's HEAD behaviour is judged in the C17 workload.", "5/C15"),
 }
 
+
+CHECKS.update({
+    "C08": ("E2-stream", "exploration", "runtime monitor: recorded write/flush/poll history checked against a sequential model with position-unique payload; Miri + ASan legs",
+            "All op sequences up to length 4 (5 in thorough) over write/write_all/flush/poll for chunk sizes 1,2,3,4,7 plus long random sequences up to 64 KiB chunks are executed; frames, partial-write counts, flush availability and the clean end are compared with a sequential model.",
+            "Single-threaded histories; interleavings are C10's subject.", "5/C08"),
+    "C09": ("E2-stream", "exploration", "runtime monitor: independent gzip member reader (own header/trailer/CRC-32, raw inflate) over recorded histories, streaming inflate after every flush; Python zlib re-check in thorough",
+            "Every history's delivered stream must parse as exactly one gzip member equal to the bytes written, and after every flush a streaming inflater over the frames so far must reproduce everything written before it; levels 1..9, chunk sizes 1..64 KiB, incompressible / zero / text payloads up to 200 KiB per write.",
+            "Inflate is flate2's raw Decompress (different code path from the encoder); thorough tier re-checks recorded streams with Python's zlib.", "5/C09"),
+    "C10": ("E3-sched", "exploration", "runtime monitor over schedules: real chunker on two threads under a token-passing delay injector at the instrumented-mutex hooks (stateless DFS over delay decisions), lost-wake-up diagnosis at operation return, free-running stress; TSan + Miri legs",
+            "All schedules (at lock-acquisition / unlock->wake / Pending granularity, <= 2 spurious polls, 3 waker policies) of all producer programs of <= 2 operations (<= 3 in thorough) are executed against the real code; longer programs are capped, preemption-bounded, random or free-running. A parked, un-woken consumer for which a poll would return Ready, a deadlock, a Pending after the writer is gone, or a clean end before everything was delivered is a violation.",
+            "Critical sections are atomic for the scheduler (they are under the code's own lock); only the most recent poll's waker counts as live.", "5/C10"),
+    "C11": ("E2-stream + E3-sched", "fault_enumeration", "fault injection (abort / body drop at every position of every short op sequence; abort programs under the scheduler; counting-allocator heap monitor)",
+            "Abort or body drop is inserted at every position of every op sequence up to length 3 (4 in thorough), raw and gzip; abort programs run under all schedules (capped); a counting allocator checks that >= 1 MiB of queued chunks is released once the body is dropped and that a writer without a consumer does not grow.",
+            "'Chunk-completing' is modelled from the configured chunk size; flush with nothing pending on a raw writer is not judged.", "5/C11"),
+    "C12": ("E1 + E2 + E3", "exploration", "runtime monitor: size_hint()/is_end_stream() sampled before every poll in all engines, judged against the total known at the clean end",
+            "About 40 million hint samples per quick run across serve bodies (Once / ExactLen / multipart), streaming bodies (raw, gzip, abort), scheduler runs and all Body::from conversions; lower <= remaining <= upper, exactness where promised, nothing after is_end_stream() = true.",
+            "Range of the hint judged only for bodies that end cleanly, as the statement conditions.", "5/C12"),
+    "C16": ("E4-negot", "exploration", "runtime oracle: independent RFC 7231 5.3.4 evaluator over the exhaustive list space; libFuzzer+ASan and Miri legs",
+            "All lists of up to 3 elements (4 in thorough: 77 million evaluations) over 6 codings x 11 weights x 4 whitespace layouts are compared with an independent evaluator; random and mutated byte strings for the no-panic clause.",
+            "Lists whose repeated codings make first/last/max/min-wins disagree are not judged.", "5/C16"),
+    "C17": ("E2-stream", "exploration", "runtime monitor: header decision vs should_gzip && level>0, body coding verified by the gzip member reader, Request vs Parts vs HEAD compared",
+            "Complete product of 300 Accept-Encoding values x gzip level default/0..9 x 3 chunk sizes, each built for GET, POST, HEAD as Request and as Parts; Vary, Content-Encoding, writer presence and the actual body coding are checked.",
+            "The negotiation decision is taken from the real should_gzip, as the statement says; C16 judges that function.", "5/C17"),
+    "C18": ("E5-file", "fault_enumeration", "fault injection on real files (truncation at every interesting length before poll 0/1/2, short reads via the read-cap hook), byte oracle, ETag history oracle; memcheck (quick too), Miri, ASan legs",
+            "Real temporary files of 7 sizes around the 64 KiB read size; all boundary range pairs x read caps; truncation points x poll index; the same through serve(); ETag stability / change histories; non-regular files.",
+            "File system supports nanosecond mtimes; bounded polls = range length + 8.", "5/C18"),
+    "C19": ("E6-dir", "exploration", "runtime oracle: in-memory POSIX path resolver (self-checked against the kernel) over the exhaustive hostile path space on a real tree; descriptor-count monitor; memcheck + ASan legs",
+            "Every path of up to 3 segments (4 in thorough) over the hostile segment alphabet, NUL at every position of 300 paths, x 6 Accept-Encoding values x auto_gzip on/off, on a real tree with a secret file outside the base; the returned node's (dev, inode), errno class, encoding() and headers are compared with the resolver's prediction.",
+            "Symlinks, permissions and over-long names are outside the quantifier.", "5/C19"),
+    "C20": ("E1 + E2 + E3", "fault_enumeration", "fault enumeration: every body polled 2-4 more times after each kind of terminal event, at every fault position",
+            "All C07 fault cases (every chunking x fault x offset x shape incl. every multipart part), the honest C01/C06 workloads, the C08/C09/C11 sequences and abort schedules are polled on after their first terminal event; a panic or data frame is a violation.",
+            "Harness entity streams are fused, as the statement requires.", "5/C20"),
+})
+
 NOT_YET = {}
 
 
